@@ -398,7 +398,7 @@ _C1, _C2 = "H<(), 1>", "H<(), 2>"
 PLAIN_SHAPES = [s.replace("C1", _C1).replace("C2", _C2) for s in [
     "struct S(C1);", "struct S(C1,);", "struct S { a: C1 }", "struct S { a: C1, }", "struct S(pub C1);", "struct S { pub(crate) a: C1 }", "pub(crate) struct S(C1);",
     "struct S(C1, C2);", "struct S { a: C1, b: C2 }", "struct S(C1, C2,);",
-    "enum S { A }", "enum S { A, }", "enum S { A, B }", "enum S { A = 1, B }", "#[repr(u8)] enum S { A = 1, B = 3 }", "#[repr(i8)] enum S { A = -1, B }",
+    "enum S { A }", "enum S { A, }", "enum S { A, B }", "enum S { A = 1, B }", "enum S { A = (1 << 3), B, Cc = (200) }", "#[repr(u8)] enum S { A = (1 << 3), B = (2 + 1) }", "#[repr(u8)] enum S { A = 1, B = 3 }", "#[repr(i8)] enum S { A = -1, B }",
     "enum S { A(C1) }", "enum S { A { a: C1 } }", "enum S { A(C1), B(C2) }", "enum S { A(C1), B { a: C2 } }", "enum S { A(C1), B }", "enum S { B, A(C1) }",
     "enum S { A(C1, C2), B }", "enum S { A { a: C1, b: C2 } }", "enum S { A(C1,), }", "enum S { A { a: C1, }, }", "#[repr(u8)] enum S { A(C1) = 3, B = 5 }",
     "struct S<const N: usize>(H<(), N>);", "struct S<T>(H<T, 1>);", "struct S<T = u8>(H<T, 1>);", "struct S<T>(H<T, 1>) where T: Clone;",
